@@ -201,7 +201,9 @@ def go_build(cmd, timeout=1500):
     os.makedirs(bindir, exist_ok=True)
     out = os.path.join(bindir, cmd)
     t = time.time()
-    p = subprocess.run(["go", "build", "-tags", "verif", "-o", out, "./cmd/" + cmd], cwd=hdir, env=go_env(),
+    # -trimpath: object files do not depend on the directory of the tree, so builds of scratch worktrees
+    # (VERIF_REPO) share the build cache with builds of /repo
+    p = subprocess.run(["go", "build", "-trimpath", "-tags", "verif", "-o", out, "./cmd/" + cmd], cwd=hdir, env=go_env(),
                        stdout=subprocess.PIPE, stderr=subprocess.STDOUT, text=True, timeout=timeout)
     if p.returncode != 0:
         raise Infra("go build %s failed:\n%s" % (cmd, p.stdout[-4000:]))
